@@ -383,3 +383,44 @@ func ZZ_C02_par_binding() {
 	_, err2 := wd.TokenAs("c1", world.Secret1, url.Values{"grant_type": {"authorization_code"}, "code": {code}, "redirect_uri": {cb1}})
 	zz.Assert(err2 == nil, "a refused attempt leaves the PAR code usable by its rightful holder")
 }
+
+// ZZ_C02_redirect_as_sent: the redirect_uri of the authorization request is one whose text net/url does not
+// reproduce (a raw non-ASCII path, an upper-case scheme on the loopback interface, an escaped unreserved
+// character): the binding is to the text AS SENT - a token request presenting the re-serialised spelling
+// (or any other text) is refused, the text as sent redeems the code.
+func ZZ_C02_redirect_as_sent() {
+	type spelling struct{ registered, sent, reserialised string }
+	sp := []spelling{
+		{"https://c1.example/rückruf", "https://c1.example/rückruf", "https://c1.example/r%C3%BCckruf"},
+		{"http://127.0.0.1/cb", "HTTP://127.0.0.1:8080/cb", "http://127.0.0.1:8080/cb"},
+		{"https://c1.example/a%7Eb", "https://c1.example/a%7Eb", "https://c1.example/a~b"},
+	}[zz.Choice("spelling", 3)]
+	wd := world.New(world.Options{})
+	wd.Store.Clients["c1"].(*fosite.DefaultClient).RedirectURIs = []string{sp.registered}
+	form := url.Values{
+		"client_id": {"c1"}, "response_type": {"code"}, "redirect_uri": {sp.sent},
+		"scope": {"offline photos"}, "state": {"state-0123456789"},
+	}
+	code, err := wd.AuthorizeGrant(form, "peter", []string{"offline"}, nil)
+	zz.Assume(err == nil && code != "")
+	var rp string
+	switch zz.Choice("presented", 4) {
+	case 0:
+		rp = sp.sent
+	case 1:
+		rp = sp.reserialised
+	case 2:
+		rp = sp.registered
+	case 3:
+		rp = zz.String("redirect", 26)
+	}
+	_, err = wd.TokenAs("c1", world.Secret1, url.Values{"grant_type": {"authorization_code"}, "code": {code}, "redirect_uri": {rp}})
+	zz.Observe("attempt.err", world.ErrName(err))
+	if err == nil {
+		zz.Cover("as-sent:redeemed", true)
+		zz.Assert(rp == sp.sent, "redeemed only with the redirect_uri exactly as the authorization request sent it")
+	} else {
+		zz.Cover("as-sent:refused", true)
+		zz.Assert(rp != sp.sent, "the redirect_uri exactly as sent redeems the code")
+	}
+}
